@@ -37,6 +37,8 @@ type GenOpts struct {
 	UnlistedNames []string // pool for field names in positions C15 does not list ($group / $project / $addFields keys, search paths)
 	MatchPool     []string // C14: names that match the configured regexp (nil = feature off)
 	NamePatterns  bool     // C14: a free choice of which generated names are taken from MatchPool
+	Scale         bool     // the layer is a scale layer (zz_verif_scale.go): kind x size x leaf variant instead of slot x productions
+	ScaleThorough bool     // scale layer: the larger size ranges
 }
 
 type Case struct {
